@@ -38,6 +38,19 @@ Theorem C16_join_only_when_prepared : forall grp evs e rid m, let s := state_aft
 Proof. exact join_only_when_prepared. Qed.
 Print Assumptions C16_join_only_when_prepared.
 
+(* ... and not only the table: NO consumer of the previous generation is running - neither registered nor still shutting
+   down (for this join's own prepare or for a ConsumerGroup.stop() in progress) - at the step that sends JoinGroup, nor at any
+   time while the JoinGroup / partition lookup / SyncGroup exchange is in flight.  [live_cids] = consumers started and not yet
+   stopped.  (The statement the repaired defect F-C16-2 violated.) *)
+Theorem C16_no_consumer_running_at_join : forall grp evs e rid m, let s := state_after grp evs in
+  In (OJoin rid m) (snd (step s e)) -> live_cids (fst (step s e)) = [].
+Proof. exact no_live_at_join. Qed.
+Print Assumptions C16_no_consumer_running_at_join.
+Theorem C16_no_consumer_running_while_joining : forall grp evs g, let s := state_after grp evs in
+  In g (gens s) -> adv g = true -> is_prep g = false -> live_cids s = [].
+Proof. exact no_live_while_joining. Qed.
+Print Assumptions C16_no_consumer_running_while_joining.
+
 (* Eviction (illegal generation, unknown member / invalid group, timeout) reaching rejoin_after_error from any reachable state:
    every registered consumer is stopped by that very call (before the rejoin it schedules), the table is empty afterwards, and
    an unknown member forgets its member id. *)
